@@ -7,6 +7,7 @@ MultiPassReader's end-of-file rule in the Go source changes the regenerated text
 import Pandora.Gen.ProvLoops
 import Pandora.Model.C08Mach
 import Pandora.Model.C08Scan
+import Pandora.Model.C08Fault
 
 namespace Pandora.Bridge.ProvLoops
 open Pandora.Model.C08 Pandora.Gen.ProvLoops
@@ -37,6 +38,33 @@ theorem doneRes_preload : runPreloadedDone = doneResOf .uri ∧ runFullScanDone 
 /-- every `Run` closes its sink on return (`Sys.next` sets `closed` on `.ret` and on the Done branch) -/
 theorem all_close : httpRunCloses = true ∧ scenarioRunCloses = true ∧ grpcRunCloses = true ∧ decodeRunCloses = true :=
   ⟨rfl, rfl, rfl, rfl⟩
+
+/-! ## how `Run` ends (round 3): the deferred cleanups, path by path -/
+
+/-- the deferred function of http `Provider.Run`, executed on its six paths (loop result nil / an error × Close
+absent / fine / failing), is `Model.C08.finishHttp`: the sink is closed on EVERY path, Close is called when there is
+one, its error is reported alone or merged.  Closing the file before the sink gives the same table; a path that
+returns before `close(p.Sink)` does not. -/
+theorem httpFinish_eq (errNil : Bool) (cl : CloseOut) : httpRunFinish errNil cl = finishHttp errNil cl := by
+  cases errNil <;> cases cl <;> rfl
+
+/-- … in particular no path of it leaves the sink open -/
+theorem httpFinish_closes (errNil : Bool) (cl : CloseOut) : (httpRunFinish errNil cl).closesSink = true := by
+  cases errNil <;> cases cl <;> rfl
+
+/-- the cleanup that closes the sink is registered before anything can leave `Run` (a failing open, a failing
+middleware, an empty ammo list), in all four families -/
+theorem defers_first :
+    httpRunDeferFirst = true ∧ scenarioRunDeferFirst = true ∧ grpcRunDeferFirst = true ∧ decodeRunDeferFirst = true :=
+  ⟨rfl, rfl, rfl, rfl⟩
+
+/-- grpc and the generic JSON provider drop the result of closing the ammo file (`Model.C08.finishPlain`: keep) -/
+theorem drops_close : grpcRunDropsClose = true ∧ decodeRunDropsClose = true := ⟨rfl, rfl⟩
+
+/-- an I/O error of the ammo file ends the loops that read it with an error handed to `Run`'s caller — the `ioerr`
+transition of `Model.C08.FSys` (`result := some .errOther`): grpcjson `start` (scanner.Err(), a failing Seek),
+`DecodeProvider.Run` (a Decode error that is not io.EOF); for the four `Scan` loops see `scanBad_eq` -/
+theorem ioErr_eq : grpcReadErr = .errOther ∧ grpcSeekErr = .errOther ∧ decodeOnErr = .errOther := ⟨rfl, rfl, rfl⟩
 
 /-- the decoder of the http provider is constructed with Limit = 0 (the provider counts delivered ammo) -/
 theorem decoderLimit_eq (l : Nat) : decoderLimit l = 0 := rfl
@@ -222,6 +250,20 @@ theorem roundOf_eq (k : Kind) : roundOf (styleOf k) =
     | _ => uriScanRound := by
   funext passes c rd a p
   cases k <;> simp [styleOf, roundOf, uriScanRound_eq, rawScanRound_eq, uripostScanRound_eq, jsonlScanRound_eq]
+
+/-- a read of the ammo file that fails (`Rd.bad`) ends `Scan` of every stream decoder with that error (json lines:
+unless the pass bound was reached before the read) -/
+theorem scanBad_eq (passes a p : Nat) :
+    uriScanRound passes false .bad a p = .ret .failed a p ∧ rawScanRound passes false .bad a p = .ret .failed a p ∧
+    uripostScanRound passes false .bad a p = .ret .failed a p ∧
+    jsonlScanRound passes false .bad a p = (if passes ≠ 0 ∧ passes ≤ p then .ret .errPass a p else .ret .failed a p) := by
+  refine ⟨rfl, rfl, rfl, ?_⟩
+  unfold jsonlScanRound
+  by_cases h : passes ≠ 0 ∧ passes ≤ p
+  · have h' : passes ≠ 0 ∧ p ≥ passes := h
+    simp [h]
+  · have h' : ¬ (passes ≠ 0 ∧ p ≥ passes) := h
+    simp only [if_neg h]
 
 /-- uripost.go's outer loop allows as many rewinds per call as the model, and ends like it -/
 theorem scanWraps_eq : scanWraps = uripostScanWraps ∧ uripostScanExhausted = .unexpected := ⟨rfl, rfl⟩
